@@ -208,10 +208,25 @@ def run_history_case(case, rec):
             if op == "modify":
                 r = rng.choice(rels)
                 p = os.path.join(root, r)
-                how = rng.choice(["overwrite", "append", "truncate"])
-                with open(p, "ab" if how == "append" else "wb") as f:
-                    if how != "truncate":
-                        f.write(b"changed\t1\n" * rng.randrange(1, 50))
+                how = rng.choice(["overwrite", "append", "truncate", "same-size", "same-size-keep-times"])
+                rec.count("modify-kind", how)
+                if how.startswith("same-size") and os.path.exists(p) and os.path.getsize(p) > 0:
+                    # an in-place edit that keeps the length; the second form also keeps the time stamps, as an
+                    # rsync -t / cp -p of an edited copy over the file would
+                    st = os.stat(p)
+                    with open(p, "r+b") as f:
+                        data = bytearray(f.read())
+                        for _k in range(rng.randrange(1, 4)):
+                            i = rng.randrange(len(data))
+                            data[i] = ord("x") if data[i] != ord("x") else ord("y")
+                        f.seek(0)
+                        f.write(bytes(data))
+                    if how == "same-size-keep-times":
+                        os.utime(p, ns=(st.st_atime_ns, st.st_mtime_ns))
+                else:
+                    with open(p, "ab" if how == "append" else "wb") as f:
+                        if how not in ("truncate", "same-size", "same-size-keep-times"):
+                            f.write(b"changed\t1\n" * rng.randrange(1, 50))
             elif op == "delete":
                 r = rng.choice(rels)
                 p = os.path.join(root, r)
